@@ -181,6 +181,10 @@ def cases(rng, tier, shard, nshards):
             pts, meta = gen.curve(rng, nmax=250, nmin=80)
         else:
             pts, meta = gen.curve(rng, nmax=70)
+        lay = None
+        if rng.random() < 0.04:
+            # integral coordinates of magnitude 1e9..1e10 as int64 (products of two coordinate differences do not fit int64)
+            pts, meta, lay = gen.large_int_curve(rng, nmax=40), {'family': 'large-int64'}, 'i64'
         n = len(pts)
         cn, dn, on = pick(rng, COSTS), pick(rng, DISTANCES), pick(rng, ORDERS)
         t = gen.threshold(rng, cn)
@@ -207,7 +211,7 @@ def cases(rng, tier, shard, nshards):
         if rng.random() < 0.03:
             tl.append(0.0)
         rng.shuffle(tl)
-        yield {'points': pts, 'family': meta['family'], 'layout': gen.pick_layout(rng, pts),
+        yield {'points': pts, 'family': meta['family'], 'layout': lay or gen.pick_layout(rng, pts),
                'cost': cn, 'distance': dn, 'order': on, 't': t, 'min_points': int(rng.integers(0, n + 3)),
                'tlist': [float(x) for x in tl], 'mp2': int(rng.integers(0, n + 3))}
 
